@@ -250,7 +250,7 @@ theorem parseBool_stable (e : Bytes) : Stable e parseBool := by
 theorem parseFrame_stable (e : Bytes) : ∀ n, Stable e (parseFrame n) := by
   intro n
   induction n with
-  | zero => intro d h; simp [parseFrame] at h
+  | zero => intro d h; simp [parseFrame, Res.ext]
   | succ n ih =>
     intro d h
     cases d with
@@ -279,109 +279,6 @@ theorem parseFrame_stable (e : Bytes) : ∀ n, Stable e (parseFrame n) := by
       split
       · rename_i ht0 ht1 ht2 ht3 ht4 ht5 ht6 ht7 ht8 ht; simp only [ht0, ht1, ht2, ht3, ht4, ht5, ht6, ht7, ht8, ht, if_true, if_false] at h; exact parseAgg_stable e _ ih false body h
       · simp [Res.ext]
-
-/-! ## more fuel never changes a non-`need` answer -/
-
-def Mono (p q : Bytes → Res) : Prop := ∀ d, p d ≠ .need → q d = p d
-
-theorem parseElemsWith_mono (p q : Bytes → Res) (hpq : Mono p q) :
-    ∀ k d, parseElemsWith p k d ≠ .need → parseElemsWith q k d = parseElemsWith p k d := by
-  intro k
-  induction k with
-  | zero => intro d _; simp [parseElemsWith]
-  | succ k ih =>
-    intro d h
-    unfold parseElemsWith at h ⊢
-    cases hpd : p d with
-    | need => simp [hpd] at h
-    | err => simp [hpq d (by simp [hpd]), hpd]
-    | ok f r =>
-      simp only [hpd] at h
-      rw [hpq d (by simp [hpd]), hpd]
-      simp only
-      cases hk : parseElemsWith p k r with
-      | need => simp [hk] at h
-      | err => simp [ih r (by simp [hk]), hk]
-      | ok fs r' => simp [ih r (by simp [hk]), hk]
-
-theorem parseArray_mono (p q : Bytes → Res) (hpq : Mono p q) : Mono (parseArray p) (parseArray q) := by
-  intro d h
-  unfold parseArray at h ⊢
-  cases hs : splitCRLF d with
-  | none => simp [hs] at h
-  | some lr =>
-    obtain ⟨l, r⟩ := lr
-    simp only [hs] at h ⊢
-    cases hq : parseI64 l with
-    | none => simp
-    | some n =>
-      simp only [hq] at h ⊢
-      by_cases h1 : n = -1
-      · simp [h1]
-      · by_cases h2 : n < 0
-        · simp [h1, h2]
-        · simp only [h1, h2, if_false] at h ⊢
-          cases hk : parseElemsWith p n.toNat r with
-          | need => simp [hk] at h
-          | err => rw [parseElemsWith_mono p q hpq _ _ (by simp [hk]), hk]
-          | ok fs r' => rw [parseElemsWith_mono p q hpq _ _ (by simp [hk]), hk]
-
-theorem parseAgg_mono (p q : Bytes → Res) (hpq : Mono p q) (m : Bool) : Mono (parseAgg p m) (parseAgg q m) := by
-  intro d h
-  unfold parseAgg at h ⊢
-  cases hs : splitCRLF d with
-  | none => simp [hs] at h
-  | some lr =>
-    obtain ⟨l, r⟩ := lr
-    simp only [hs] at h ⊢
-    cases hq : parseU64 l with
-    | none => simp
-    | some n =>
-      simp only [hq] at h ⊢
-      cases hk : parseElemsWith p (if m = true then 2 * n else n) r with
-      | need => simp [hk] at h
-      | err => rw [parseElemsWith_mono p q hpq _ _ (by simp [hk]), hk]
-      | ok fs r' => rw [parseElemsWith_mono p q hpq _ _ (by simp [hk]), hk]
-
-theorem parseFrame_succ : ∀ n, Mono (parseFrame n) (parseFrame (n + 1)) := by
-  intro n
-  induction n with
-  | zero => intro d h; simp [parseFrame] at h
-  | succ n ih =>
-    intro d h
-    cases d with
-    | nil => simp [parseFrame] at h
-    | cons t body =>
-      unfold parseFrame at h ⊢
-      split
-      · rfl
-      split
-      · rfl
-      split
-      · rfl
-      split
-      · rfl
-      split
-      · rename_i ht0 ht1 ht2 ht3 ht; simp only [ht0, ht1, ht2, ht3, ht, if_true, if_false] at h; exact parseArray_mono _ _ ih body h
-      split
-      · rfl
-      split
-      · rfl
-      split
-      · rfl
-      split
-      · rename_i ht0 ht1 ht2 ht3 ht4 ht5 ht6 ht7 ht; simp only [ht0, ht1, ht2, ht3, ht4, ht5, ht6, ht7, ht, if_true, if_false] at h; exact parseAgg_mono _ _ ih true body h
-      split
-      · rename_i ht0 ht1 ht2 ht3 ht4 ht5 ht6 ht7 ht8 ht; simp only [ht0, ht1, ht2, ht3, ht4, ht5, ht6, ht7, ht8, ht, if_true, if_false] at h; exact parseAgg_mono _ _ ih false body h
-      · rfl
-
-theorem parseFrame_fuel_mono {n m : Nat} (hnm : n ≤ m) (d : Bytes) (h : parseFrame n d ≠ .need) :
-    parseFrame m d = parseFrame n d := by
-  induction hnm with
-  | refl => rfl
-  | step hle ih =>
-    rename_i m
-    rw [parseFrame_succ m d (by rw [ih]; exact h), ih]
 
 /-! ## progress: a parsed frame consumes at least one byte -/
 
